@@ -23,8 +23,13 @@ def wfWhy (i : Input) : String :=
   if !(decide (0 ≤ i.jcol) && decide (i.jcol < i.m)) then "jcol range" else
   if !(decide ((i.perm_r.size : Int) = i.m) && decide ((i.marker.size : Int) = 3 * i.m)) then "sizes" else
   if !(decide (i.jcol ≤ i.repfnz.size) && decide (i.jcol ≤ i.parent.size) && decide (i.jcol ≤ i.xplore.size)) then "sizes2" else
-  if !(decide (0 ≤ i.nseg) && decide (i.nseg + i.jcol ≤ i.segrep.size + (visited0 i.jcol i.repfnz).length)) then
-    s!"segrep capacity: nseg={i.nseg} jcol={i.jcol} |segrep|={i.segrep.size} visited={(visited0 i.jcol i.repfnz).length}" else
+  if !(decide (0 ≤ i.nseg) && decide (i.jcol ≤ i.segrep.size)) then
+    s!"segrep capacity: nseg={i.nseg} jcol={i.jcol} |segrep|={i.segrep.size}" else
+  if !(decide (slice i.segrep 0 i.nseg).Nodup && (slice i.segrep 0 i.nseg).all (fun v => 0 ≤ v && v < i.jcol)) then
+    s!"segrep entries: segrep[0..nseg)={slice i.segrep 0 i.nseg} are not distinct columns below jcol={i.jcol}" else
+  if !((slice i.segrep 0 i.nseg).all (fun v => rd i.repfnz v ≠ EMPTY ||
+     (colRows i.lsubCol).all fun row => rd i.perm_r row = EMPTY || v < repOf e (rd i.perm_r row))) then
+    s!"segrep unreached: an entry of segrep[0..nseg)={slice i.segrep 0 i.nseg} with repfnz = EMPTY is not below the representative of a pivoted nonzero: rows={colRows i.lsubCol} perm_r={i.perm_r.toList} xsup={i.xsup.toList} supno={i.supno.toList} repfnz={i.repfnz.toList}" else
   if !(decide (0 ≤ nextl0) && decide (nextl0 + (unpivoted i.m i.perm_r).length ≤ i.lsub.size)) then
     s!"lsub capacity: nextl={nextl0} unpivoted={(unpivoted i.m i.perm_r).length} |lsub|={i.lsub.size}" else
   if !(allBelow i.m (fun r => rd i.perm_r r = EMPTY || (0 ≤ rd i.perm_r r && rd i.perm_r r < i.jcol))) then "perm_r range" else
@@ -32,9 +37,9 @@ def wfWhy (i : Input) : String :=
   if !(allBelow i.jcol (fun k => (k : Int) ≤ repOf e k && repOf e k < i.jcol && repOf e (repOf e k) = repOf e k)) then "representatives" else
   if !(allBelow i.jcol (fun s => repOf e s ≠ s ||
     (0 ≤ rd i.xlsub s && rd i.xlsub s ≤ rd i.xprune s && rd i.xprune s ≤ nextl0 &&
-     (adjRows e i.lsub s).all fun row => 0 ≤ row && row < i.m && (rd i.perm_r row = EMPTY || (s : Int) ≤ rd i.perm_r row)))) then
+     (adjRows e i.lsub s).all fun row => 0 ≤ row && row < i.m && (rd i.perm_r row = EMPTY || (s : Int) ≤ rd i.perm_r row || repOf e (rd i.perm_r row) = s)))) then
     let bad := (List.range i.jcol.toNat).filter (fun (s : Nat) => repOf e s = s && !(0 ≤ rd i.xlsub s && rd i.xlsub s ≤ rd i.xprune s && rd i.xprune s ≤ nextl0 &&
-      (adjRows e i.lsub s).all fun row => 0 ≤ row && row < i.m && (rd i.perm_r row = EMPTY || (s : Int) ≤ rd i.perm_r row)))
+      (adjRows e i.lsub s).all fun row => 0 ≤ row && row < i.m && (rd i.perm_r row = EMPTY || (s : Int) ≤ rd i.perm_r row || repOf e (rd i.perm_r row) = s)))
     let s0 := bad.headD 0
     s!"pruned lists: s={s0} xsup={i.xsup.toList} supno={i.supno.toList} xlsub[s]={rd i.xlsub s0} xprune[s]={rd i.xprune s0} nextl0={nextl0} rows={adjRows e i.lsub s0} perm_r={i.perm_r.toList}" else
   if !((colRows i.lsubCol).all (fun row => 0 ≤ row && row < i.m)) then "column rows" else "?"
